@@ -474,21 +474,26 @@ class Array(Environment):
         Apply borders from \\(h|c|v)line and colspecs
 
         """
-        lastrow = len(self) - 1
         emptyrows = []
         prev = None
+        leading = []
         for i, row in enumerate(self):
             if not isinstance(row, Array.ArrayRow):
                 continue
             # If the row is only here to apply borders, apply the
             # borders to the adjacent row.  Empty rows are deleted later.
             if row.isBorderOnly:
-                if i == 0 and lastrow:
-                    row.applyBorders(self[1], 'top')
-                elif prev is not None:
+                if prev is not None:
                     row.applyBorders(prev, 'bottom')
+                else:
+                    # Before the first row with content: the borders go
+                    # on top of that row
+                    leading.append(row)
                 emptyrows.insert(0, i)
             else:
+                for item in leading:
+                    item.applyBorders(row, 'top')
+                leading = []
                 row.applyBorders()
                 if self.colspec:
                     # Expand multicolumns so that they don't mess up
